@@ -63,6 +63,16 @@ def cases(tier, seed, args):
             out.append(dict(t='ll', kind='cwmm', L=[], K=2, D=3, N=[60, 200][(i // 2) % 2], wca=(-1,), wca_type='tuple', iterations=15 if q else 30,
                             saliency=False, seed=int(rng.integers(1 << 30)), opts={}, offset=0.0, sal_class=False,
                             noise=[0.1, 0.066, 0.12, 0.06, 0.07, 0.055][(i // 2) % 6], informed=bool((i // 2) % 2)))
+    # long signals (more than 1024 observations, not a multiple of 1024)
+    for i in range(1 if q else 4):
+        out.append(dict(t='ll', kind='cacgmm', L=[], K=2, D=3, N=[1500, 2047, 1100, 1300][i % 4], wca=(-1,), wca_type='tuple', iterations=5,
+                        saliency=False, seed=int(rng.integers(1 << 30)), opts=dict(covariance_norm='eigenvalue', affiliation_eps=0.0),
+                        offset=0.0, sal_class=False, every=1))
+    # badly spread data: two heavy regular clusters (integer saliency = repetitions) and a few points 1e3 deviations away
+    for i in range(3 if q else 12):
+        out.append(dict(t='ll', kind='gmm', L=[], K=3, D=2, N=46, wca=(-1,), wca_type='tuple', iterations=6, saliency=True,
+                        seed=int(rng.integers(1 << 30)), opts=dict(covariance_type=['full', 'diagonal', 'spherical'][i % 3]), offset=0.0,
+                        sal_class=False, far_cluster=True))
     # long soft-start runs in which one class crosses a concentration of 200 on its way (the other class stays ordinary)
     for i in range(2 if q else 8):
         out.append(dict(t='ll', kind='cwmm', L=[], K=2, D=3, N=[400, 600][i % 2], wca=(-1,), wca_type='tuple', iterations=16,
@@ -142,6 +152,14 @@ def run_case(case):
         lab = rng.integers(0, K, size=(*L, N))
         data['y'] = rng.normal(size=(*L, N, D)) + 3.0 * np.eye(K, D)[lab] + case['offset']
     lab0 = None
+    far = None
+    if kind == 'gmm' and case.get('far_cluster'):
+        labf = np.arange(N) % 2
+        y_ = rng.normal(size=(N, D)) + 6.0 * np.eye(2, D)[labf]
+        y_[-6:] = 1e3 + rng.normal(size=(6, D))
+        data['y'] = y_
+        far = np.ones(N)
+        far[:-6] = 400.0                      # every regular observation stands for 400 repetitions
     if kind == 'gmm' and case.get('scale'):
         data['y'] = (data['y'] - case['offset']) * case['scale']
         lab0 = lab
@@ -188,6 +206,10 @@ def run_case(case):
             # saliency correlated with the (soft) initial class
             sal = np.where(init[..., 0, :] > np.median(init[..., 0, :]), rng.uniform(0.5, 1.0, size=(*L, N)),
                            rng.uniform(0.05, 0.2, size=(*L, N)))
+        if far is not None:
+            sal = far
+            init = rng.uniform(0.05, 1.0, size=(K, N))
+            init = init / init.sum(0, keepdims=True)
         opts['saliency'] = sal
     if kind == 'cwmm':
         # history: a trainer of the same class has been used with another feature dimension in this process
@@ -234,8 +256,11 @@ def run_case(case):
         kap = m.complex_watson.concentration if 'complex_watson' in F else np.ones(1)
         pw = (sal if sal is not None else 1.0) * ell
         hi = np.rint(np.nan_to_num(pw, posinf=0, neginf=0) * 1024.0)
+        fine_ok = bool(np.sum(np.abs(hi)) < 2 ** 30)        # the exact integer sum must fit TLC's 32-bit integers
+        if not fine_ok:
+            hi = np.zeros_like(hi)
         lo = pw - hi / 1024.0
-        rec = dict(kind='ll', exc='', first=t == 0, full=full, fix_hi=[int(x) for x in hi.ravel()],
+        rec = dict(kind='ll', exc='', first=t == 0, full=full, fine_ok=fine_ok, fix_hi=[int(x) for x in hi.ravel()],
                    fix_lo=[enc.flt(x) for x in lo.ravel()], w=flat(w), lp=flat(lp), lp_own=flat(lp_own), ell=flat(ell),
                    kexp_args=[float(x) for x in args.ravel()], has_sal=sal is not None,
                    sal=flat(sal) if sal is not None else dict(shape=[], data=[]),
